@@ -6,6 +6,8 @@
      "chr"  prefix x one item of CharAlphabet                      -> character constants
      "str"  prefix x bodies of <= 2 items (one of them a context item: what comes
             before / after an escape decides where the escape ends)    -> one-piece strings
+     "seq"  prefix x a list of longer bodies (escaped backslash before u, comment openers, digits after an
+            escape, all item kinds in one body)
      "cat"  <= 3 adjacent pieces of <= 1 item, every defined prefix mix   -> concatenation, widening
 
    Level A  CharValue / StrBytes (Literals.tla)
@@ -38,6 +40,20 @@ Context == { Ch(97), Ch(49), Ch(102), Ch(56), Ch(233), Esc(110, 10), Oct(<<0>>),
 CatAlphabet == IF Small THEN { Ch(49), Ch(233), Ch(128512), Hex(<<4>>) }
                ELSE { Ch(97), Ch(49), Ch(233), Ucn(8364, 4), Ch(128512), Hex(<<4>>), Oct(<<1>>), Hex(<<15, 15>>) }
 PfxSet == {"", "u8", "u", "U", "L"}
+(* family "seq": longer bodies chosen for what the passes before the lexer could get wrong: an escaped backslash
+   in front of u / U (not a UCN), comment openers and a splice look-alike inside a literal, an escape directly
+   followed by digits that do not belong to it, a mixture of every item kind                                  *)
+Chs(cs) == Map(cs, LAMBDA c : Ch(c))
+SeqBodies == { <<Esc(92, 92)>> \o Chs(<<117, 48, 48, 101, 57>>),                               \* \\u00e9
+               <<Esc(92, 92)>> \o Chs(<<85, 48, 48, 48, 49, 70, 54, 48, 48>>),                  \* \\U0001F600
+               <<Esc(92, 92), Esc(92, 92)>> \o Chs(<<117>>),                                    \* \\\\u
+               Chs(<<47, 42, 97, 42, 47>>), Chs(<<47, 47, 97>>),                               \* /*a*/  //a
+               Chs(<<97>>) \o <<Esc(92, 92)>>, <<Esc(92, 92), Esc(110, 10)>>,                   \* a\\  \\\n
+               <<Oct(<<1, 0, 1>>)>> \o Chs(<<49, 50>>), <<Oct(<<0>>)>> \o Chs(<<56, 57>>),       \* \10112  \089
+               <<Hex(<<4, 1>>)>> \o Chs(<<103, 49>>), <<HexUp(<<10, 11>>)>> \o Chs(<<120>>),     \* \x41g1  \xABx
+               <<Ucn(233, 4)>> \o Chs(<<48, 48>>), <<Ucn(128512, 8)>> \o Chs(<<102, 102>>),      \* \u00e900  \U0001f600ff
+               <<Ch(233), Ucn(8364, 4), Ch(128512), Hex(<<7, 15>>), Esc(110, 10), Oct(<<0>>), Ch(97), UcnUp(1114111, 8), Ch(65536)>>,
+               Chs(<<117, 56>>), Chs(<<76, 39, 97, 39>>), Chs(<<37, 100, 37, 37>>) }            \* u8  L'a'  %d%%  as text
 
 VARIABLES fam, pieces,
           lit              \* Level A of the literal `pieces`: [def, val] (chr) / [def, bytes] (str); computed once per state
@@ -46,7 +62,7 @@ Undef == [def |-> FALSE]
 
 LastPc == pieces[Len(pieces)]
 IsChr == fam = "chr" /\ pieces # <<>>
-IsStr == fam \in {"str", "cat"} /\ pieces # <<>>
+IsStr == fam \in {"str", "cat", "seq"} /\ pieces # <<>>
 ChrDef(ps) == CharDefined(ps[1].p, ps[1].items[1])
 Kinds(ps) == Flat(Map(ps, LAMBDA pc : Map(pc.items, LAMBDA it : it.k)))
 
@@ -65,6 +81,13 @@ Violation(p, it) ==
   ELSE IF it.k \in {"oct", "hex"} /\ Bad \in {ItemElems(p, it)[j] : j \in DOMAIN ItemElems(p, it)} THEN "escape-out-of-range"
   ELSE "none"
 DiagCase(cls, p, it, src) == [kind |-> "diag", cls |-> cls, pfx |-> p, kinds |-> <<it.k>>, src |-> src]
+
+SeqMake(p, body) ==
+  /\ fam = "seq" /\ pieces = <<>>
+  /\ pieces' = << [p |-> p, items |-> body] >>
+  /\ UNCHANGED fam
+  /\ lit' = IF StrDefined(pieces') THEN [def |-> TRUE, bytes |-> StrBytes(pieces')] ELSE Undef
+  /\ lit'.def => Write(StrCase(pieces', lit'))
 
 ChrMake(p, it) ==
   /\ fam = "chr" /\ pieces = <<>>
@@ -97,6 +120,7 @@ StrAdd(it) ==
 
 Init == fam \in Fams /\ pieces = <<>> /\ lit = Undef
 Next == \/ \E p \in {"", "u", "U", "L"}, it \in CharAlphabet : ChrMake(p, it)
+        \/ \E p \in PfxSet, body \in SeqBodies : SeqMake(p, body)
         \/ \E p \in PfxSet : StrStart(p)
         \/ \E it \in CharAlphabet \cup CatAlphabet \cup Context : StrAdd(it)
 Spec == Init /\ [][Next]_vars
